@@ -216,6 +216,20 @@ def c12(tier, seed, replay_path=None):
                          binary, tier, seed, "startup-webhook", "C12")
 
 
+_AS_GB = 12
+
+
+def _run_limited(binary, env_extra, cwd):
+    """The API harness under an address-space limit: a request that makes the service ask for tens of gigabytes ends this
+    process with the Go runtime's own 'out of memory' instead of the machine's OOM killer picking a victim."""
+    import resource, subprocess
+    env = c.go_env()
+    env.update({k: str(v) for k, v in env_extra.items()})
+    lim = _AS_GB << 30
+    return subprocess.run([binary, "-test.run", "^TestHarness$", "-test.timeout", "0"], env=env, cwd=cwd, capture_output=True, text=True, timeout=3600,
+                          preexec_fn=lambda: resource.setrlimit(resource.RLIMIT_AS, (lim, lim)))
+
+
 def c16(tier, seed, replay_path=None):
     binary = fc.build()
     d = c.sub("gen")
@@ -236,10 +250,25 @@ def c16(tier, seed, replay_path=None):
     # (a taller but lighter stale branch, an orphan chain longer than the main chain)
     agg = None
     for store in (0, 1):
-        p = c.run_harness(binary, {"VERIF_OP": "apierr", "VERIF_IN": tbl, "VERIF_OUT": out, "VERIF_DB": os.path.join(dbd, "e%d.db" % store), "VERIF_SEED": seed,
-                                   "VERIF_INSTANCES": inst, "VERIF_STORE": store}, cwd=dbd)
-        if p.returncode != 0 or not os.path.exists(out):
-            raise c.Infra("apierr harness failed: %s %s" % (p.stdout[-1500:], p.stderr[-1500:]))
+        p, died = None, []
+        for attempt in range(2):
+            p = _run_limited(binary, {"VERIF_OP": "apierr", "VERIF_IN": tbl, "VERIF_OUT": out, "VERIF_DB": os.path.join(dbd, "e%d.db" % store), "VERIF_SEED": seed,
+                                      "VERIF_INSTANCES": inst, "VERIF_STORE": store}, dbd)
+            if p.returncode == 0 and os.path.exists(out):
+                break
+            # the process did not survive: which request was it serving?  Believed only when it dies on the same request again.
+            i = max(p.stderr.find("fatal error:"), p.stderr.find("panic:"))
+            if i < 0 or not os.path.exists(out + ".progress"):
+                raise c.Infra("apierr harness failed: %s %s" % (p.stdout[-1500:], p.stderr[-1500:]))
+            died.append((open(out + ".progress").read(), p.stderr[i:].splitlines()[0][:200], p.stderr[i:i + 3000]))
+        if len(died) == 2:
+            if died[0][0] != died[1][0]:
+                raise c.Infra("apierr harness died twice on different requests: %s / %s" % (died[0][:2], died[1][:2]))
+            v = simple_verdict("C16", {"behaviours": 0, "steps": 0, "queries": 0, "mismatches": [], "samples": [], "crashed": [], "stats": {}}, [r])
+            v["violations"].append(("[store %d] %s -> the process serving the API dies (%s), twice in two runs, under an address-space limit of %d GB" % (store, died[0][0], died[0][1], _AS_GB),
+                                    {"family": "apierr-death", "request": died[0][0], "stderr": died[0][2]}))
+            v["level"] = "exploration"
+            return v
         res = json.load(open(out))
         os.unlink(out)
         for m in res.get("mismatches") or []:
